@@ -284,6 +284,9 @@ func runExplore(t *testing.T, rep *report.R, bound int, scenario func(c *choice.
 		})
 	})
 	rep.AddTransitions(st.ChoicePoints)
+	if n := pause.SelSeen.Swap(0); n > 0 {
+		rep.Count("selects_with_several_ready_cases", n) // each was a choice point (owned selects, DESIGN 9.17)
+	}
 	if st.Capped {
 		rep.Cap(st.CapReason)
 	}
